@@ -47,6 +47,19 @@ Theorem C36_chunks_ordered : forall res num_chunks data,
 Proof. exact chunks_ordered_exact. Qed.
 Print Assumptions C36_chunks_ordered.
 
+(* Clause 4.  Reading count / sum / min / max back through the querier's
+   chunkSeriesIterator (pkg/query/iter.go: per-chunk iterators, Seek(lastT+1) when entering
+   the next chunk) yields exactly the concatenation of the per-chunk lists: nothing is
+   dropped by the overlap skip, because of clause 3. *)
+Theorem C36_query_readback : forall res num_chunks data,
+  valid_raw res data ->
+  exists out, downsample_raw_m res num_chunks data = Some out /\
+    readbacks out =
+      [ concat (map (fun c => olist (k_count c)) out); concat (map (fun c => olist (k_sum c)) out);
+        concat (map (fun c => olist (k_min c)) out); concat (map (fun c => olist (k_max c)) out) ].
+Proof. exact readback_exact. Qed.
+Print Assumptions C36_query_readback.
+
 (* All clauses, plus clause 4 (reading count/sum/min/max back through the querier's
    chunkSeriesIterator yields exactly the concatenated per-chunk lists), through the
    boolean predicate that the check evaluates on the implementation's own output. *)
@@ -65,6 +78,13 @@ Theorem C36_current_window : forall res, 0 < res ->
   (forall t t', 0 <= t -> t <= t' -> t' <= cw t res -> cw t' res = cw t res).
 Proof. intros res H. split; [exact (cw_ge res H)|exact (cw_same res H)]. Qed.
 Print Assumptions C36_current_window.
+
+(* Tie T for the batch size of downsampleRawLoop: the model's (len / numChunks) + 1 is the
+   expression assigned to batchSize in the Go source (translated into Gen/C36.v on every run). *)
+Theorem C36_batch_size_source : forall len nc,
+  Z.to_nat (raw_batch_size (Z.of_nat len) (Z.of_nat nc)) = (len / nc + 1)%nat.
+Proof. exact raw_batch_size_model. Qed.
+Print Assumptions C36_batch_size_source.
 
 (* Non-vacuity: irregular series with a NaN, a window boundary and two batches
    (num_chunks = 2) at a 10 ms resolution. *)
